@@ -1481,3 +1481,16 @@ package zygo
 //@ C02 assert then-the-rest @before call MapList[0]: headDone && arg0 == env && arg1 == fun
 //@ func MapArray
 //@ C02 assert position-by-position @before call Apply[0]: arg0 == env && arg1 == fun && len(arg2) == 1 && sarr(arg2) == sarr(arr.Val) && soff(arg2) == soff(arr.Val) + i && 0 <= i
+
+// C15: the reader sugar ~ applies to whatever follows it. The rune after a tilde opens the
+// next token; a delimiter (bracket, quote, blank) is never written into the atom buffer.
+// (rune codes: 40 '('  91 '['  123 '{'  34 '"'  39 quote  96 backtick  32 9 10 13 blanks)
+//@ func (*Lexer).Token
+//@ C15 pure
+//@ C15 ensures r0.typ == typ && r0.str == str
+//@ macro opensToken(r rune) bool = r == 40 || r == 91 || r == 123 || r == 34 || r == 32 || r == 9 || r == 10 || r == 13
+//@ func (*Lexer).LexNextRune
+//@ ghost tildeJustRead := false @entry
+//@ ghost tildeJustRead := arg1.typ == TokenTilde @after call AppendToken[*]
+//@ C15 assert tilde-does-not-swallow-a-delimiter @before call WriteRune[*]: tildeJustRead ==> !opensToken(arg1)
+//@ C15 loop 0 invariant rescan-after-tilde: tildeJustRead ==> lexer.state == LexerNormal && opensToken(r)
